@@ -267,7 +267,10 @@ func check(c *pbt.Case, r *pbt.R) {
 			// %+v shows every branch there too, through the received
 			// error's own Format method and through Formattable.
 			outs := []string{fmt.Sprintf("%+v", errbase.Formattable(x))}
-			if _, ok := x.(fmt.Formatter); ok {
+			// (the received error's own Format only when it is a type of the
+			// library - opaque values included: a foreign type's Format method,
+			// e.g. that of pkg/errors, prints what it likes)
+			if tn := fmt.Sprintf("%T", x); strings.HasPrefix(tn, "*errbase.") || strings.HasPrefix(tn, "*join.") || strings.HasPrefix(tn, "*withstack.") || strings.HasPrefix(tn, "*errutil.") {
 				outs = append(outs, fmt.Sprintf("%+v", x))
 			}
 			for _, out := range outs {
